@@ -96,6 +96,22 @@ def Repo.deleteRuleSet (s : Repo) (src : String) : Option Repo :=
   | none => none
   | some t => some ⟨s.known.filter (·.src != src), t⟩
 
+inductive RepoOp where
+  | add (src : String) (rules : List RuleCfg)
+  | upd (src : String) (rules : List RuleCfg)
+  | del (src : String)
+deriving Repr
+
+def Repo.apply (s : Repo) : RepoOp → Option Repo
+  | .add src rules => s.addRuleSet src rules
+  | .upd src rules => s.updateRuleSet src rules
+  | .del src => s.deleteRuleSet src
+
+/-- a change that cannot be applied is rejected as a whole -/
+def Repo.step (s : Repo) (op : RepoOp) : Repo := (s.apply op).getD s
+
+def Repo.run (ops : List RepoOp) : Repo := ops.foldl Repo.step Repo.empty
+
 /-- the lookup matcher handed to the tree by `FindRule` -/
 def repoMatcher (q : ReqView) (v : RVal) (keys caps : List String) : Bool := routeMatches v.route q keys caps
 
@@ -113,5 +129,31 @@ def Repo.findRule (s : Repo) (hasDefault : Bool) (q : ReqView) : Found? :=
   match lookup (repoMatcher q) s.index (lookupPath q) with
   | some (v, ps) => .rule v ps
   | none => if hasDefault then .default else .none
+
+inductive ExecResult where
+  | ok (caps : List (String × String))
+  | argument                                  -- precondition error (`heimdall.ErrArgument`)
+deriving Repr, DecidableEq
+
+/-- the Go map `Request.URL.Captures`: a name used twice keeps the last value -/
+def lastWins (ps : List (String × String)) : List (String × String) :=
+  ps.foldl (fun acc kv => (acc.filter (fun a => a.1 != kv.1)) ++ [kv]) []
+
+/-- the part of `ruleImpl.Execute` that precedes the pipeline: encoded-slash switch and decoding of captures -/
+def execPrelude (esh : SlashHandling) (q : ReqView) (params : List (String × String)) : ExecResult :=
+  if esh = .off && containsEncodedSlash q.rawPath then .argument
+  else .ok ((lastWins params).map fun kv => (kv.1, unescapeCapture esh kv.2))
+
+structure Served where
+  rule : Option (String × String)             -- (source, id); the default rule is ("config", "default")
+  exec : Option ExecResult
+deriving Repr
+
+/-- lookup + start of execution, as observed by the correspondence check -/
+def Repo.serve (s : Repo) (hasDefault : Bool) (q : ReqView) : Served :=
+  match s.findRule hasDefault q with
+  | .none => ⟨none, none⟩
+  | .default => ⟨some ("config", "default"), some (execPrelude .off q [])⟩
+  | .rule v ps => ⟨some (v.src, v.rid), some (execPrelude v.esh q ps)⟩
 
 end Heimdall
